@@ -1,5 +1,5 @@
 (* C17 — install, failure and download events are sent at the promised moments, once. *)
-From UV Require Import Base Codec Model PMLemmas Inv Ban Handout Calls.
+From UV Require Import Base Codec Model PMLemmas Inv Ban Handout Calls Events.
 
 Theorem C17_success_event :
   forall (c : cfg) (d : disk),
@@ -49,6 +49,25 @@ Theorem C17_update_empties_queue :
     evq_of c (fst (fst (do_update sha sigok zdec base c d ch r dl))) = [].
 Proof. exact update_empties_queue. Qed.
 Print Assumptions C17_update_empties_queue.
+
+(* "and never otherwise": queries, launch start and success reports, checks, auto-update queries and
+   restarts leave state.json as it was (or as a fresh file, if it belonged to another release), and none
+   of them but a launch-success report sends an event *)
+Theorem C17_quiet_calls :
+  forall sha sigok zdec base (w : world) (o : op) (c : cfg),
+    w_cfg w = Some c -> quiet o ->
+    (sj (w_disk (fst (fst (step sha sigok zdec base w o)))) = sj (w_disk w) \/
+     sj (w_disk (fst (fst (step sha sigok zdec base w o)))) = sj (norm c (w_disk w))) /\
+    (forall e, In (NEvent e) (snd (step sha sigok zdec base w o)) -> o = OSuccess).
+Proof. exact quiet_calls. Qed.
+Print Assumptions C17_quiet_calls.
+
+Theorem C17_quiet_calls_keep_queue :
+  forall sha sigok zdec base (w : world) (o : op) (c : cfg),
+    w_cfg w = Some c -> stable (c_rel c) (w_disk w) -> quiet o ->
+    evq_of c (w_disk (fst (fst (step sha sigok zdec base w o)))) = evq_of c (w_disk w).
+Proof. exact quiet_calls_keep_queue. Qed.
+Print Assumptions C17_quiet_calls_keep_queue.
 
 (* every event built by the library carries the configured app id and release version *)
 Theorem C17_payload :
